@@ -326,9 +326,20 @@ func (cm *CMap) parseBfRangeSection(section string) error {
 
 		startCode, err1 := parseHexToUint32(startHex)
 		endCode, err2 := parseHexToUint32(endHex)
-		dstUnicode, err3 := parseHexToUint32(dstHex)
+		if err1 != nil || err2 != nil {
+			continue
+		}
 
-		if err1 != nil || err2 != nil || err3 != nil {
+		// A target of more than one UTF-16 code unit (a surrogate pair or a
+		// multi-character string) is not a number: the range increments its last
+		// code unit (ISO 32000-1 9.10.3). Expand it into explicit mappings.
+		if len(dstHex) > 4 {
+			cm.addMultiUnitRange(startCode, endCode, dstHex)
+			continue
+		}
+
+		dstUnicode, err3 := parseHexToUint32(dstHex)
+		if err3 != nil {
 			continue
 		}
 
@@ -341,6 +352,34 @@ func (cm *CMap) parseBfRangeSection(section string) error {
 	}
 
 	return nil
+}
+
+// maxExpandedRange bounds how many codes a multi-unit bfrange may cover.
+const maxExpandedRange = 65536
+
+// addMultiUnitRange maps startCode..endCode to the UTF-16BE string dstHex, whose last
+// code unit is incremented once per code.
+func (cm *CMap) addMultiUnitRange(startCode, endCode uint32, dstHex string) {
+	if len(dstHex)%2 != 0 {
+		dstHex = "0" + dstHex
+	}
+	units, err := hex.DecodeString(dstHex)
+	if err != nil || len(units) < 2 || len(units)%2 != 0 {
+		return
+	}
+	if endCode < startCode || endCode-startCode >= maxExpandedRange {
+		return
+	}
+	last := uint16(units[len(units)-2])<<8 | uint16(units[len(units)-1])
+	for offset := uint32(0); offset <= endCode-startCode; offset++ {
+		u := last + uint16(offset)
+		cur := make([]byte, len(units))
+		copy(cur, units)
+		cur[len(cur)-2], cur[len(cur)-1] = byte(u>>8), byte(u)
+		if text, err := decodeUTF16BE(cur); err == nil {
+			cm.charMappings[startCode+offset] = text
+		}
+	}
 }
 
 // parseBfRangeSectionWithArrays handles bfrange sections that contain array format entries
@@ -411,9 +450,15 @@ func (cm *CMap) parseBfRangeSectionWithArrays(section string) error {
 
 			startCode, err1 := parseHexToUint32(startHex)
 			endCode, err2 := parseHexToUint32(endHex)
+			if err1 != nil || err2 != nil {
+				continue
+			}
+			if len(dstHex) > 4 {
+				cm.addMultiUnitRange(startCode, endCode, dstHex)
+				continue
+			}
 			dstUnicode, err3 := parseHexToUint32(dstHex)
-
-			if err1 != nil || err2 != nil || err3 != nil {
+			if err3 != nil {
 				continue
 			}
 
